@@ -207,6 +207,44 @@ def F19_flat_values_alias_callers_numpy_memory():
     got = (nf["n.g"].tolist(), s2.nest["k"].tolist(), s3.nest["a"].tolist())
     return got == ([10.0, 20.0, 30.0], [1.0, 2.0, 3.0], [1.0, 2.0, 3.0]), got
 
+@case
+def F20_mixed_layers_under_unary_operator_or_function_refused():
+    nf = NestedFrame({"id": [0, 1], "x": [1.0, 2.0]}, index=[5, 6]).add_nested(pd.DataFrame({"a": [1, 2, 3]}, index=[5, 5, 6]), "nest")
+    got = {}
+    for q in ["-(nest.a + id) < 0", "~(nest.a > id)", "abs(nest.a - x) < 1"]:
+        try:
+            nf.query(q)
+            got[q] = "accepted"
+        except ValueError:
+            got[q] = "refused"
+    ok_single = nf.query("-nest.a < -1")["nest"].nest.to_flat()["a"].tolist() == [2, 3]
+    return all(v == "refused" for v in got.values()) and ok_single, got
+
+
+@case
+def F21_sort_values_with_a_field_called_index():
+    nf = NestedFrame({"a": [1, 2]}, index=[0, 1]).add_nested(pd.DataFrame({"index": [3.0, 1.0, 2.0], "t": [1, 2, 3]}, index=[0, 0, 1]), "n")
+    try:
+        got = (nf.sort_values("n.index")["n"].nest.to_flat()["index"].tolist(),
+               nf.sort_values("n.t", ascending=False)["n"].nest.to_flat()["t"].tolist())
+    except Exception as e:
+        return False, repr(e)
+    return got == ([1.0, 3.0, 2.0], [2, 1, 3]), got
+
+
+@case
+def F22_nested_column_called_self():
+    df = pd.DataFrame({"a": [1, 2], "l": [[1, 2], [3]]}, index=[0, 0])
+    nf = NestedFrame({"a": [1, 2]}, index=[0, 1]).add_nested(pd.DataFrame({"t": [1.0, 2.0, 3.0]}, index=[0, 0, 1]), "n")
+    try:
+        r1 = NestedFrame.from_lists(df, base_columns=["a"], list_columns=["l"], name="self")
+        r2 = nf.reduce(lambda t: {"self.x": t * 2, "m": t.sum()}, "n.t")
+        got = (list(r1.columns), r1["self"].nest.to_flat()["l"].tolist(), list(r2.columns), r2["self"].nest.to_flat()["x"].tolist())
+    except Exception as e:
+        return False, repr(e)
+    return got == (["a", "self"], [1, 2, 3], ["m", "self"], [2.0, 4.0, 6.0]), got
+
+
 if __name__ == "__main__":
     bad = 0
     for k, (ok, d) in R.items():
